@@ -99,6 +99,21 @@ def rules(rep, m):
             r3.ok()
     # the if statement whose condition contains the demand call
     ifs = [n for n in walk(sig.body) if n["kind"] == "IfStmt" and any(x is dc for x in walk(kids(n)[0]))]
+    if not ifs:
+        # the outcome kept in a local (assigned once from the call) and tested right after
+        for st_ in walk(sig.body):
+            if st_["kind"] == "BinaryOperator" and st_.get("opcode") == "=" and strip(kids(st_)[1], casts=True) is dc:
+                tv = strip(kids(st_)[0], casts=True)
+                if tv["kind"] == "DeclRefExpr":
+                    writes = [l_ for l_, r__, k__, n__ in inv.stores(sig) if strip(l_, casts=True).get("ref", {}).get("id") == tv["ref"]["id"]]
+                    if len(writes) == 1:
+                        ifs = [n for n in walk(sig.body) if n["kind"] == "IfStmt" and
+                               strip(strip(kids(n)[0], casts=True) if strip(kids(n)[0], casts=True)["kind"] != "UnaryOperator"
+                                     else kids(strip(kids(n)[0], casts=True))[0], casts=True).get("ref", {}).get("id") == tv["ref"]["id"]]
+            if st_["kind"] == "VarDecl" and kids(st_) and strip(kids(st_)[0], casts=True) is dc:
+                ifs = [n for n in walk(sig.body) if n["kind"] == "IfStmt" and
+                       strip(strip(kids(n)[0], casts=True) if strip(kids(n)[0], casts=True)["kind"] != "UnaryOperator"
+                             else kids(strip(kids(n)[0], casts=True))[0], casts=True).get("ref", {}).get("id") == st_.get("id")]
     if heap is not None:
         if len(ifs) != 1:
             raise AnalysisBroken("cmb_resourceguard_signal: demand call is not an if condition")
